@@ -151,9 +151,14 @@ def ann_src(t: T) -> str:
         return f"Annotated[dt.timedelta, ArrowType(pa.duration('{t[1]}'))]"
     if k == "dec":
         return f"Annotated[Decimal, ArrowType(pa.decimal128({t[1]}, {t[2]}))]"
-    if k == "opt":
+    if k == "opt":  # ("opt", t [, "bar" | "typing"]): the spelling  X | None  or  Optional[X]
         inner = ann_src(t[1])
-        return f"Optional[{inner}]" if inner.startswith("Annotated") else f"{inner} | None"
+        how = t[2] if len(t) > 2 else ("typing" if inner.startswith("Annotated") else "bar")
+        return f"Optional[{inner}]" if how == "typing" else f"{inner} | None"
+    if k == "ann":  # ("ann", t [, "arrow"]): Annotated[T, metadata] / Annotated[plain T, ArrowType(the Arrow type of T)]
+        if len(t) > 2 and t[2] == "arrow":
+            return f"Annotated[{plain_src(t[1])}, ArrowType({arrow_src(t[1])})]"
+        return f"Annotated[{ann_src(t[1])}, 'meta', 42]"
     if k == "list":
         return f"list[{ann_src(t[1])}]"
     if k == "set":
@@ -161,6 +166,57 @@ def ann_src(t: T) -> str:
     if k == "map":
         return f"dict[{ann_src(t[1])}, {ann_src(t[2])}]"
     raise ValueError(t)
+
+
+def plain_src(t: T) -> str:
+    """The bare Python type of t (no Annotated inside): what an explicit ArrowType override is attached to."""
+    k = t[0]
+    if k in ("int", "float", "str", "bytes", "bool"):
+        return k
+    if k == "opt":
+        return f"{plain_src(t[1])} | None"
+    if k == "ann":
+        return plain_src(t[1])
+    if k == "list":
+        return f"list[{plain_src(t[1])}]"
+    if k == "set":
+        return f"frozenset[{plain_src(t[1])}]"
+    if k == "map":
+        return f"dict[{plain_src(t[1])}, {plain_src(t[2])}]"
+    raise ValueError(t)
+
+
+def arrow_src(t: T) -> str:
+    """The Arrow type _infer_arrow_type gives t, as source (for ArrowType(...) overrides)."""
+    k = t[0]
+    if k == "int":
+        return f"pa.{'' if t[1] else 'u'}int{t[2]}()"
+    if k == "float":
+        return f"pa.float{t[1]}()"
+    if k in ("str", "bytes", "bool"):
+        return {"str": "pa.string()", "bytes": "pa.binary()", "bool": "pa.bool_()"}[k]
+    if k in ("opt", "ann"):
+        return arrow_src(t[1])
+    if k in ("list", "set"):
+        return f"pa.list_({arrow_src(t[1])})"
+    if k == "map":
+        return f"pa.map_({arrow_src(t[1])}, {arrow_src(t[2])})"
+    raise ValueError(t)
+
+
+def norm(t: T) -> T:
+    """The annotation without its spelling: Annotated wrappers and Optional spelling tags removed (the property's view:
+    Annotated[X | None, m] IS an optional X)."""
+    k = t[0]
+    if k == "ann":
+        return norm(t[1])
+    if k == "opt":
+        return ("opt", norm(t[1]))
+    if k in ("list", "set"):
+        return (k, norm(t[1]))
+    if k == "map":
+        return ("map", norm(t[1]), norm(t[2]))
+    return t
 
 
 _NS: dict[str, Any] = {
@@ -467,6 +523,8 @@ def coq_ty(t: T) -> str:
         return f"(TDecimal {t[1]} ({t[2]}))"
     if k == "opt":
         return f"(TOpt {coq_ty(t[1])})"
+    if k == "ann":
+        return f"(TAnn {coq_ty(t[1])})"
     if k == "list":
         return f"(TList {coq_ty(t[1])})"
     if k == "set":
